@@ -937,17 +937,36 @@ func NewStreamMessage(streamID int) *Message {
 	return v
 }
 
+// The basic header of a chunk, in the 1, 2 or 3 bytes form required by the chunk stream id.
+// @remark A message read from peer keeps the cid of peer, which might be 64 or larger,
+// 	and a message by NewMessage() has no cid, so we use the cid for stream.
+func (v *Message) generateBasicHeader(format formatType) []byte {
+	cid := uint32(v.betterCid)
+	if cid < 2 || cid > 65599 {
+		cid = uint32(chunkIDOverStream)
+	}
+
+	if cid < 64 {
+		return []byte{byte(format)<<6 | byte(cid)}
+	} else if cid < 320 {
+		return []byte{byte(format) << 6, byte(cid - 64)}
+	}
+	return []byte{byte(format)<<6 | 1, byte(cid - 64), byte((cid - 64) >> 8)}
+}
+
 func (v *Message) generateC3Header() ([]byte, error) {
+	bh := v.generateBasicHeader(formatType3)
+
 	var c3h []byte
 	if v.Timestamp < extendedTimestamp {
-		c3h = make([]byte, 1)
+		c3h = make([]byte, len(bh))
 	} else {
-		c3h = make([]byte, 1+4)
+		c3h = make([]byte, len(bh)+4)
 	}
 
 	p := c3h
-	p[0] = 0xc0 | byte(v.betterCid&0x3f)
-	p = p[1:]
+	copy(p, bh)
+	p = p[len(bh):]
 
 	// In RTMP protocol, there must not any timestamp in C3 header,
 	// but actually all products from adobe, such as FMS/AMS and Flash player and FMLE,
@@ -964,16 +983,18 @@ func (v *Message) generateC3Header() ([]byte, error) {
 }
 
 func (v *Message) generateC0Header() ([]byte, error) {
+	bh := v.generateBasicHeader(formatType0)
+
 	var c0h []byte
 	if v.Timestamp < extendedTimestamp {
-		c0h = make([]byte, 1+3+3+1+4)
+		c0h = make([]byte, len(bh)+3+3+1+4)
 	} else {
-		c0h = make([]byte, 1+3+3+1+4+4)
+		c0h = make([]byte, len(bh)+3+3+1+4+4)
 	}
 
 	p := c0h
-	p[0] = byte(v.betterCid) & 0x3f
-	p = p[1:]
+	copy(p, bh)
+	p = p[len(bh):]
 
 	if v.Timestamp < extendedTimestamp {
 		p[0] = byte(v.Timestamp >> 16)
